@@ -58,7 +58,12 @@ Occurs(ids, x) == \E i \in 1..Len(ids) : ids[i] = x
 Spellings == {"fmt0", "fmtx", "pcts", "pctmap", "bslash", "lbrace", "rbrace", "braces", "pct", "nl"}
 TextSituations == [ intervalOpen |-> "InvalidInput", intervalClose |-> "InvalidInput", sumVariable |-> "InvalidInput",
                     listBlank |-> "MissingInput", listLength |-> "MissingInput",
-                    stringPattern |-> "InvalidInput", stringShort |-> "InvalidInput" ]
+                    stringPattern |-> "InvalidInput", stringShort |-> "InvalidInput",
+                    \* texts that are too short once the white space around them is gone (the "spelling" selects one of ten
+                    \* paddings: blanks, tabs, line breaks at either end of a short fragment).  An interval of fewer than
+                    \* five characters cannot be read: the library refuses it as unreadable with a ConfigError (the text of
+                    \* intervalgrader.py; the documentation page is silent about this case)
+                    intervalShort |-> "ConfigError", listBlankPadded |-> "MissingInput", stringShortPadded |-> "InvalidInput" ]
 (* ---- anticipated problems of array arithmetic (math_array.py, the C14 statement): the formula parses and every name is
    known, the operation is one linear algebra does not have.  The documented class is MathArrayError (its subclass
    MathArrayShapeError where a shape is at fault -- a subclass keeps the class), CalcError for the ambiguous product of
@@ -68,7 +73,7 @@ ArraySituations == [ arrayPowNonInt |-> "MathArrayError", arrayPowComplex |-> "M
                      arrayAddScalar |-> "MathArrayError", arrayShape |-> "MathArrayError", arrayDivide |-> "MathArrayError",
                      notSquarePow |-> "MathArrayError", singularInverse |-> "MathArrayError", tripleVector |-> "CalcError" ]
 Situations == TextSituations @@ ArraySituations
-OtherInFamily == /\ \A x \in DOMAIN TextSituations : TextSituations[x] \in StudentFacing \ CalcFamily
+OtherInFamily == /\ \A x \in DOMAIN TextSituations : TextSituations[x] \in MITxFamily \ CalcFamily
                  /\ \A x \in DOMAIN ArraySituations : ArraySituations[x] \in StudentFacing \cap CalcFamily
 ASSUME OtherInFamily
 
